@@ -672,6 +672,42 @@ fn type_names_type(t: &ast::TypeId, out: &mut Vec<ast::ScopedIdentifier>) {
     for a in t.base.layout.1.iter() {
         type_names_eot(a, out);
     }
+    type_names_abstract_declarator(&t.abstract_declarator, out);
+}
+
+/// the array sizes of an abstract declarator are expressions (`(float[(S)x])y`)
+fn type_names_abstract_declarator(d: &ast::Declarator, out: &mut Vec<ast::ScopedIdentifier>) {
+    match d {
+        ast::Declarator::Empty | ast::Declarator::Identifier(..) => {}
+        ast::Declarator::Pointer(p) => type_names_abstract_declarator(&p.inner, out),
+        ast::Declarator::Reference(r) => type_names_abstract_declarator(&r.inner, out),
+        ast::Declarator::Array(a) => {
+            type_names_abstract_declarator(&a.inner, out);
+            if let Some(e) = &a.array_size {
+                type_names_expr(&e.node, out);
+            }
+        }
+    }
+}
+
+fn resolve_abstract_declarator(d: &ast::Declarator, types: &[ast::ScopedIdentifier]) -> ast::Declarator {
+    match d {
+        ast::Declarator::Empty | ast::Declarator::Identifier(..) => d.clone(),
+        ast::Declarator::Pointer(p) => ast::Declarator::Pointer(ast::PointerDeclarator {
+            attributes: p.attributes.clone(),
+            qualifiers: p.qualifiers.clone(),
+            inner: Box::new(resolve_abstract_declarator(&p.inner, types)),
+        }),
+        ast::Declarator::Reference(r) => ast::Declarator::Reference(ast::ReferenceDeclarator {
+            attributes: r.attributes.clone(),
+            inner: Box::new(resolve_abstract_declarator(&r.inner, types)),
+        }),
+        ast::Declarator::Array(a) => ast::Declarator::Array(ast::ArrayDeclarator {
+            inner: Box::new(resolve_abstract_declarator(&a.inner, types)),
+            array_size: a.array_size.as_ref().map(|e| Box::new(loc(resolve(&e.node, types)))),
+            attributes: a.attributes.clone(),
+        }),
+    }
 }
 
 fn type_names_eot(e: &ast::ExpressionOrType, out: &mut Vec<ast::ScopedIdentifier>) {
@@ -733,6 +769,7 @@ fn resolve_type(t: &ast::TypeId, types: &[ast::ScopedIdentifier]) -> ast::TypeId
     let mut t = t.clone();
     let args: Vec<_> = t.base.layout.1.iter().map(|a| resolve_eot(a, types)).collect();
     t.base.layout.1 = args.into_boxed_slice();
+    t.abstract_declarator = resolve_abstract_declarator(&t.abstract_declarator, types);
     t
 }
 
@@ -1938,7 +1975,18 @@ fn run_request(line: &str, out: &mut Out, hist: &mut Stats) {
                 let (mc, mt) = shrink(c, &t, &kind);
                 let key = format!("{} {} {}", kind, mc.name(), mt.show());
                 hist.classes.add(&key);
-                o.oracle = format!("{} min={}", o.oracle, key);
+                // the known misreading `a < b … > (c)` => `a<b …>(c)` inside a tree that has template arguments elsewhere:
+                // the *minimal* failing tree has no expression-or-type position at all and its text reads back with one
+                let has_eot = |t: &str| t.contains("(E (") || t.contains("(B (") || t.contains("(T (");
+                let mo = run_tree(mc, &mt);
+                let invents = !has_eot(&mt.show())
+                    && mo.obs.split(" ==> ").nth(1).map(|r| has_eot(r)).unwrap_or(false);
+                o.oracle = format!(
+                    "{}{} min={}",
+                    o.oracle,
+                    if invents { " reread-invents-template-args" } else { "" },
+                    key
+                );
             }
             out.case(line, &o.obs, &o.oracle);
         }
@@ -2158,6 +2206,113 @@ fn exhaustive(d: usize, full: bool) -> Vec<SExp> {
         out.push(SExp::list("mem", vec![c.clone(), SExp::atom("m")]));
         out.push(SExp::list("call", vec![c.clone(), SExp::List(vec![]), SExp::List(vec![a.clone()])]));
         out.push(SExp::list("call", vec![a.clone(), SExp::List(vec![]), SExp::List(vec![c.clone(), b.clone()])]));
+    }
+    out
+}
+
+/// the expression-or-type positions (and the other positions with delimiters of their own that sit inside types) an
+/// expression can be printed in: template argument of a call / of a type name (alone, first, after a type), `sizeof`
+/// operand, template argument of a type that is itself a template argument (`>` `>` adjacent), array size of an abstract
+/// declarator
+const TARG_POSITIONS: usize = 9;
+fn targ_position(e: &SExp, k: usize) -> SExp {
+    let ea = SExp::list("E", vec![e.clone()]);
+    let foo = |args: Vec<SExp>| {
+        let mut v = vec![parse_sexp("(n Foo)").unwrap()];
+        v.extend(args);
+        SExp::list("tyt", v)
+    };
+    let x = parse_sexp("(id x)").unwrap();
+    let g = parse_sexp("(id g)").unwrap();
+    let four = parse_sexp("(E (lit i 4))").unwrap();
+    let tfloat = parse_sexp("(T (ty float))").unwrap();
+    match k % TARG_POSITIONS {
+        0 => SExp::list("call", vec![g, SExp::List(vec![ea]), SExp::List(vec![x])]),
+        1 => SExp::list("cast", vec![foo(vec![ea]), x]),
+        2 => SExp::list("sizeof", vec![ea]),
+        3 => SExp::list("call", vec![g, SExp::List(vec![tfloat, ea]), SExp::List(vec![])]),
+        4 => SExp::list("cast", vec![foo(vec![ea, four]), x]),
+        5 => SExp::list("call", vec![g, SExp::List(vec![SExp::list("T", vec![foo(vec![ea])])]), SExp::List(vec![x])]),
+        6 => SExp::list("sizeof", vec![SExp::list("T", vec![foo(vec![four, ea])])]),
+        7 => SExp::list("cast", vec![SExp::list("arr", vec![parse_sexp("(ty float)").unwrap(), e.clone()]), x]),
+        _ => SExp::list("call", vec![g, SExp::List(vec![ea, tfloat]), SExp::List(vec![x.clone(), x])]),
+    }
+}
+
+/// one node of every kind around `x` (the other operands are leaves): the alphabet of the systematic part of the
+/// `template-args` stream
+fn targ_wrappers(x: &SExp, all_ops: bool) -> Vec<SExp> {
+    let a = parse_sexp("(id a)").unwrap();
+    let b = parse_sexp("(lit i 3)").unwrap();
+    let mut out = Vec::new();
+    for op in ["Minus", "LogicalNot", "PostfixIncrement", "PrefixDecrement"] {
+        out.push(un(op, x.clone()));
+    }
+    let some_ops = [
+        "Multiply", "Add", "LeftShift", "RightShift", "LessThan", "GreaterThan", "GreaterEqual", "LessEqual", "Equality",
+        "BitwiseAnd", "BooleanOr", "Assignment", "RightShiftAssignment", "Sequence",
+    ];
+    if all_ops {
+        for (op, _) in BINOPS.iter() {
+            out.push(bin(op, x.clone(), a.clone()));
+            out.push(bin(op, a.clone(), x.clone()));
+        }
+    } else {
+        for op in some_ops {
+            out.push(bin(op, x.clone(), a.clone()));
+            out.push(bin(op, a.clone(), x.clone()));
+        }
+    }
+    out.push(SExp::list("tern", vec![x.clone(), a.clone(), b.clone()]));
+    out.push(SExp::list("tern", vec![a.clone(), x.clone(), b.clone()]));
+    out.push(SExp::list("tern", vec![a.clone(), b.clone(), x.clone()]));
+    out.push(SExp::list("sub", vec![x.clone(), a.clone()]));
+    out.push(SExp::list("sub", vec![a.clone(), x.clone()]));
+    out.push(SExp::list("mem", vec![x.clone(), SExp::atom("m")]));
+    out.push(SExp::list("call", vec![x.clone(), SExp::List(vec![]), SExp::List(vec![a.clone()])]));
+    out.push(SExp::list("call", vec![a.clone(), SExp::List(vec![]), SExp::List(vec![x.clone()])]));
+    out.push(SExp::list("call", vec![a.clone(), SExp::List(vec![]), SExp::List(vec![x.clone(), b.clone()])]));
+    out.push(targ_position(x, 0));
+    out.push(targ_position(x, 5));
+    out.push(SExp::list("cast", vec![parse_sexp("(ty S)").unwrap(), x.clone()]));
+    out.push(targ_position(x, 1));
+    out.push(targ_position(x, 2));
+    out
+}
+
+/// systematic trees for the `template-args` stream: every node kind over every node kind (depth 3: all 30 binary
+/// operators at the inner node), and depth 4 where the middle node is a conditional / assignment / comma / cast / minus
+fn targ_catalogue(full: bool) -> Vec<SExp> {
+    let leaf = parse_sexp("(id b)").unwrap();
+    let d2 = targ_wrappers(&leaf, true);
+    let mut out = vec![leaf.clone(), parse_sexp("(lit i 3)").unwrap()];
+    out.extend(d2.iter().cloned());
+    let mut d3 = Vec::new();
+    for x in &d2 {
+        d3.extend(targ_wrappers(x, full));
+    }
+    out.extend(d3.iter().cloned());
+    // depth 4: the operators that print their operands bare at the loosest levels around every depth-3 tree whose top is a
+    // conditional, an assignment or a comma (thorough: around every depth-3 tree)
+    for y in &d3 {
+        let top_loose = match y.head() {
+            Some("tern") => true,
+            Some("bin") => matches!(y.args()[0].as_atom(), Some("Assignment") | Some("Sequence") | Some("RightShiftAssignment")),
+            _ => false,
+        };
+        if !(full || top_loose) {
+            continue;
+        }
+        let a = parse_sexp("(id a)").unwrap();
+        let c = parse_sexp("(id c)").unwrap();
+        out.push(bin("Assignment", a.clone(), y.clone()));
+        out.push(bin("Sequence", y.clone(), a.clone()));
+        out.push(bin("Sequence", a.clone(), y.clone()));
+        out.push(SExp::list("tern", vec![y.clone(), a.clone(), c.clone()]));
+        out.push(SExp::list("tern", vec![a.clone(), y.clone(), c.clone()]));
+        out.push(SExp::list("tern", vec![a.clone(), c.clone(), y.clone()]));
+        out.push(un("Minus", y.clone()));
+        out.push(SExp::list("cast", vec![parse_sexp("(ty S)").unwrap(), y.clone()]));
     }
     out
 }
@@ -2439,6 +2594,73 @@ impl Gen {
         }
     }
 
+    /// stream `template-args`: an expression of any form for an expression-or-type position.  Like `expr(d, false)` with
+    /// the weights moved towards what matters inside `<` … `>`: conditionals, the operators `<` `>` `>=` `>>` `>>=` `<=`
+    /// `<<`, comma, assignments — and with casts (also to types with template arguments), `sizeof` and template calls
+    /// (nested expression-or-type positions) at every depth.  Names used as types (`Foo`, `S`, `vector`, `float`) and as
+    /// values (`a b c n x`) are disjoint, so no argument starts like a type.
+    fn targ_expr(&mut self, d: usize) -> SExp {
+        if d <= 1 || self.rng.chance(1, 8) {
+            return match self.rng.below(10) {
+                0 | 1 | 2 => parse_sexp(&format!("(lit i {})", self.rng.below(9))).unwrap(),
+                3 => parse_sexp("(lit u 4)").unwrap(),
+                4 => parse_sexp("(lit b 1)").unwrap(),
+                5 => parse_sexp("(id N v)").unwrap(),
+                _ => SExp::list("id", vec![SExp::atom(*self.rng.pick(&["a", "b", "c", "n", "x"]))]),
+            };
+        }
+        let r = self.rng.below(100);
+        if r < 10 {
+            let op = UNOPS[self.rng.below(10) as usize].0;
+            un(op, self.targ_expr(d - 1))
+        } else if r < 30 {
+            let op = *self.rng.pick(&[
+                "LessThan", "GreaterThan", "GreaterEqual", "RightShift", "RightShiftAssignment", "Sequence", "LessEqual",
+                "LeftShift", "LeftShiftAssignment", "Assignment",
+            ]);
+            let l = self.targ_expr(d - 1);
+            let r = self.targ_expr(d - 1);
+            bin(op, l, r)
+        } else if r < 45 {
+            let op = BINOPS[self.rng.below(30) as usize].0;
+            let l = self.targ_expr(d - 1);
+            let r = self.targ_expr(d - 1);
+            bin(op, l, r)
+        } else if r < 65 {
+            let c = self.targ_expr(d - 1);
+            let a = self.targ_expr(d - 1);
+            let b = self.targ_expr(d - 1);
+            SExp::list("tern", vec![c, a, b])
+        } else if r < 70 {
+            let o = self.targ_expr(d - 1);
+            let i = self.targ_expr(d - 1);
+            SExp::list("sub", vec![o, i])
+        } else if r < 74 {
+            let o = self.targ_expr(d - 1);
+            SExp::list("mem", vec![o, SExp::atom("m")])
+        } else if r < 80 {
+            let f = if self.rng.chance(1, 2) { parse_sexp("(id f)").unwrap() } else { self.targ_expr(d - 1) };
+            let mut args = Vec::new();
+            for _ in 0..self.rng.below(3) {
+                args.push(self.targ_expr(d - 1));
+            }
+            SExp::list("call", vec![f, SExp::List(vec![]), SExp::List(args)])
+        } else if r < 88 {
+            let x = self.targ_expr(d - 1);
+            let k = self.rng.below(TARG_POSITIONS as u64) as usize;
+            targ_position(&x, k)
+        } else if r < 94 {
+            let t = if self.rng.chance(1, 2) {
+                SExp::list("ty", vec![SExp::atom(*self.rng.pick(&["float", "S", "Foo"]))])
+            } else {
+                SExp::list("tyt", vec![parse_sexp("(n Foo)").unwrap(), SExp::list("E", vec![self.targ_expr(d - 1)])])
+            };
+            SExp::list("cast", vec![t, self.targ_expr(d - 1)])
+        } else {
+            SExp::list("sizeof", vec![SExp::list("E", vec![self.targ_expr(d - 1)])])
+        }
+    }
+
     /// random tree of depth <= d; `exotic` enables exporter-only shapes
     fn expr(&mut self, d: usize, exotic: bool) -> SExp {
         if d <= 1 || self.rng.chance(1, 7) {
@@ -2552,6 +2774,31 @@ pub fn run(args: &Args, out: &mut Out) {
         run_request(&line, out, &mut st);
     }
     out.stat(&st.json("random-types"));
+    // stream 3b': every expression form in every expression-or-type position (closes seeded mutant C09-6): the
+    // systematic catalogue in the three main positions and, rotating, the other six; then random deeper trees
+    let mut st = Stats::default();
+    let cat = targ_catalogue(thorough);
+    for (i, e) in cat.iter().enumerate() {
+        for k in [0usize, 1, 2, 3 + i % 6] {
+            let t = targ_position(e, k);
+            let line = format!("C09.rt\tret\t{}", t.show());
+            run_request(&line, out, &mut st);
+        }
+    }
+    for i in 0..(if thorough { 40000 } else { 3000 }) {
+        let d = 3 + (i % 4) as usize;
+        let e = g.targ_expr(d);
+        let mut t = targ_position(&e, g.rng.below(TARG_POSITIONS as u64) as usize);
+        if g.rng.chance(1, 3) {
+            // not at the root: below an assignment, a conditional, a comma, a subscript …
+            let ws = targ_wrappers(&t, false);
+            t = ws[g.rng.below(ws.len() as u64) as usize].clone();
+        }
+        let ctx = *g.rng.pick(&["ret", "ret", "arg", "idx", "init", "stmt"]);
+        let line = format!("C09.rt\t{}\t{}", ctx, t.show());
+        run_request(&line, out, &mut st);
+    }
+    out.stat(&st.json("template-args"));
     // stream 3c: literals of every kind over the whole value range ("every literal reads back with the same value and type")
     let mut st = Stats::default();
     for i in 0..(if thorough { 60000 } else { 6000 }) {
